@@ -660,6 +660,11 @@ func (x *Exec) szTerm(mv Term) Term {
 	return App(SInt, "sz", mv)
 }
 
+// szBound: the content of any store state fits in memory.
+func szBound(t Term) Term {
+	return And(mk(SBool, "(>= %s 0)", t), mk(SBool, "(<= %s 4611686018427387904)", t))
+}
+
 // szMember: the member bound of the ghost sum at a key that is read.
 func (x *Exec) szMember(mv, k Term) {
 	if !x.usesSz || !isMapSort(mv.Sort) {
@@ -670,7 +675,7 @@ func (x *Exec) szMember(mv, k Term) {
 		return
 	}
 	s := x.szTerm(mv)
-	x.assume(x.cur.reach, And(mk(SBool, "(>= %s 0)", s),
+	x.assume(x.cur.reach, And(szBound(s),
 		Implies(Select(MapHas(mv), k), mk(SBool, "(>= %s (+ (str_len %s) (str_len %s)))", s, k, Select(MapVal(mv), k)))))
 }
 
@@ -750,6 +755,6 @@ func (x *Exec) szFacts(before, after, k Term, v *Term) {
 		nw = IntLit(0)
 	}
 	x.assume(x.cur.reach, mk(SBool, "(= %s (+ (- %s %s) %s))", sa, sb, old, nw))
-	x.assume(x.cur.reach, And(mk(SBool, "(>= %s 0)", sa), mk(SBool, "(>= %s 0)", sb), mk(SBool, "(>= %s %s)", sb, old)))
-	x.note("ghost summation sz over map[string][]byte: update and member-bound facts of a finite sum of non-negative terms")
+	x.assume(x.cur.reach, And(szBound(sa), szBound(sb), mk(SBool, "(>= %s %s)", sb, old)))
+	x.note("ghost summation sz over map[string][]byte: update and member-bound facts of a finite sum of non-negative terms; every store state fits in memory (sz <= 2^62)")
 }
